@@ -15,6 +15,7 @@
       internal output's `_received` is the conjunction of the `_received` lines of the inputs
       bonded to it (one consumer: that line; none: no assignment at all — the wire is undriven,
       0 in the two-state semantics, as the simulator's `false`);
+    * `data_nets_declared` — every data net the top level mentions is declared register-size wide;
     * `recv_fold_eq_all`, `recv_fold_order_independent` — the running `&&` of `VM.Step` is
       `List.all` over the consumers and does not depend on the order of `Links`;
     * `rtl_reads_through_wire` — the hardware composition `Bm.rtlCycle` feeds every processor
@@ -42,6 +43,7 @@
   models, and both against a round-robin run of the reference network.
 -/
 import BMV.Proofs.Bond
+import BMV.Proofs.BondDecl
 import BMV.Proofs.Kpn
 import BMV.Proofs.Bm
 import BMV.Proofs.BmRtlBond
@@ -94,6 +96,15 @@ theorem received_is_conjunction (t : Topo) (h : WF t) (rsize : Nat) (j : Nat) (o
         (!(consumers t j).isEmpty && (consumers t j).all (fun c => env (.recv c))) ∧
     ∀ s, s ∈ consumers t j ↔ (o, s) ∈ bonds t :=
   ⟨recv_value (exact_wire h rsize) env ho, fun _ => mem_consumers h ho⟩
+
+/-- declarations: every data net that an instance port or an `assign` of the emitted top level
+    mentions is declared with the machine's register size — none is an implicit 1-bit net (the
+    `_valid` / `_received` lines of an unbonded processor input are, legally: they are scalar) -/
+theorem data_nets_declared (t : Topo) (h : WF t) (rsize : Nat) :
+    (∀ i ∈ (wire t rsize).insts, ∀ b, Net.data b ∈ i.conns → DataDeclared (wire t rsize) rsize b) ∧
+    (∀ a ∈ (wire t rsize).assigns, (∀ b, a.1 = .data b → DataDeclared (wire t rsize) rsize b) ∧
+      (∀ b, a.2 = .id (.data b) → DataDeclared (wire t rsize) rsize b)) :=
+  data_nets_declared' h rsize
 
 /-! ### the simulator's conjunction -/
 
